@@ -19,13 +19,13 @@ import (
 // c14Docs are JSON texts; "raw:" marks file contents used verbatim (not valid JSON).
 var c14Docs = []string{
 	`{"a":1,"b":[1,2,3]}`, `{"a":2,"b":[1,3,2]}`, `[1,2,2,3]`, `[{"id":1,"v":1},{"id":2,"v":2}]`, `[{"id":2,"v":2},{"id":1,"v":3}]`,
-	`[1,[1.0],{"a":2.0},5]`, `[2,[1.05],{"a":2.04},5,[1.0]]`, `{"a":{"b":{"c":{"x":1,"y":2,"z":[1,2,3]}}}}`, ``, `{}`, `{"a":{"b":{"c":{"x":3,"y":4,"z":[1]}}}}`, `{"pct":"100% done %s %d","v":[1,"50%"]}`, `[3,2,1]`, `{"a":{"b":"x"}}`, `{"a":{"b":"y","c":[true]}}`, `"str"`, `[[1,2],[2,1]]`, `[[2,1]]`,
+	`[1,[1.0],{"a":2.0},5]`, `[2,[1.05],{"a":2.04},5,[1.0]]`, `[3,[1.04],6,[1.0]]`, `{"a":{"b":{"c":{"x":1,"y":2,"z":[1,2,3]}}}}`, ``, `{}`, `{"a":{"b":{"c":{"x":3,"y":4,"z":[1]}}}}`, `{"pct":"100% done %s %d","v":[1,"50%"]}`, `[3,2,1]`, `{"a":{"b":"x"}}`, `{"a":{"b":"y","c":[true]}}`, `"str"`, `[[1,2],[2,1]]`, `[[2,1]]`,
 }
 
 func init() {
 	// one line of more than 64 KiB (line-buffer limits), used in the quick tier too
 	big := `{"a":1,"big":"` + strings.Repeat("y", 70000) + `"}`
-	c14Docs = append(c14Docs[:7:7], append([]string{big}, c14Docs[7:]...)...)
+	c14Docs = append(c14Docs[:8:8], append([]string{big}, c14Docs[8:]...)...)
 }
 
 var c14Raw = []string{"raw:{\"a\":\"\u27e6FF\u27e7\u27e6FE\u27e7\"}", "raw:\u27e6FF\u27e7\u27e6FE\u27e7{\"a\":1}", "raw:name: \"a\tb\"\n", "raw:name: \"a  b\"\n", "raw:\ufeff{\"a\":1}", "raw:\ufeffa: 1\n", "raw:{invalid", "raw:a: [1, 2]\nb: x\n", "raw:msg: |\n  line one\n  line two\n", "raw:  a: 1\n  b:\n  - x\n", "raw:\n\n[1,2]\n\n"}
@@ -201,7 +201,7 @@ func enumC14(tier string, e *engine.Emitter) {
 	}
 	docs := c14Docs
 	if tier != "thorough" {
-		docs = docs[:13]
+		docs = docs[:14]
 	}
 	flags := c14FlagSpace(tier)
 	for _, bin := range c14Bins {
